@@ -2,13 +2,13 @@
    Property theorems only; proofs are in ProofsBuf.v, ProofsStream.v, ProofsMain.v, ProofsCheck.v.
 
    Vocabulary (Model.v): [run_ops ops (init_with conn thr max script)] is the stream after ANY sequence of
-   operations (write d | WRITE-ready | close) against ANY transport script (accept <= k bytes |
+   operations (write d | WRITE-ready | close | the caller cancels write future #id) against ANY transport script (accept <= k bytes |
    EWOULDBLOCK | OSError; an exhausted script accepts everything), for any coalescing threshold
    [thr] and any max_write_buffer_size.  [tr s] is the trace of everything that happened, newest
    event first; [sent_of]/[written_of] are the bytes accepted by the transport / by write() so far. *)
 From Coq Require Import List NArith Arith Bool.
 Import ListNotations.
-From TV Require Import Lib.Obs C12.Model C12.Run C12.ProofsBuf C12.ProofsStream C12.ProofsMain C12.ProofsLive C12.ProofsDrain C12.ProofsCheck.
+From TV Require Import Lib.Obs C12.Model C12.Run C12.ProofsBuf C12.ProofsStream C12.ProofsMain C12.ProofsLive C12.ProofsDrain C12.ProofsP4 C12.ProofsCheck.
 
 (* ---- (REF) _StreamBuffer refines a byte string ---- *)
 Theorem C12_buffer_empty : wf empty_buf /\ abs empty_buf = [].
@@ -104,7 +104,8 @@ Theorem C12_open_stream_conserves_bytes :
     wf (wb s) /\ sent_of (tr s) ++ abs (wb s) = written_of (tr s) /\
     twi s = length (written_of (tr s)) /\ twd s = length (sent_of (tr s)) /\
     bsize (wb s) = twi s - twd s /\
-    map snd (wfut s) = pending_ids (tr s) /\
+    map snd (wfut s) = queued_ids (tr s) /\
+    pending_ids (tr s) = filter (fun i => negb (cancelled_in i (tr s))) (queued_ids (tr s)) /\
     match maxb s with Some mx => bsize (wb s) <= mx | None => True end.
 Proof. exact open_state. Qed.
 Print Assumptions C12_open_stream_conserves_bytes.
@@ -136,6 +137,35 @@ Theorem C12_nothing_sent_or_resolved_while_connecting :
     connecting s = true -> sent_of (tr s) = [] /\ (forall id, ~ In (EResolve id) (tr s)).
 Proof. exact connecting_quiet. Qed.
 Print Assumptions C12_nothing_sent_or_resolved_while_connecting.
+
+(* caller-side cancellation (phase 4).  [ops] may cancel any write future at any point, so EVERY theorem in
+   this file holds for every pattern of cancellations: bytes of a cancelled write are still sent in order
+   (C12_each_send_is_the_next_bytes, C12_eventually_every_byte_is_delivered), later futures still resolve
+   exactly when their bytes are out (C12_resolve_only_after_..., C12_futures_resolve_promptly).  In addition:
+   a cancelled future is never resolved (future_set_result_unless_cancelled), cancel() takes effect only on a
+   pending, not yet cancelled future, and only cancelled futures are dequeued without being resolved *)
+Theorem C12_cancelled_future_never_resolves :
+  forall conn thr max script ops post id pre,
+    tr (run_ops ops (init_with conn thr max script)) = post ++ EResolve id :: pre ->
+    cancelled_in id pre = false.
+Proof. exact cancelled_never_resolves. Qed.
+Print Assumptions C12_cancelled_future_never_resolves.
+
+Theorem C12_cancel_hits_pending_and_skip_hits_cancelled :
+  forall conn thr max script ops post id pre,
+    (tr (run_ops ops (init_with conn thr max script)) = post ++ ECancel id :: pre ->
+       In id (pending_ids pre) /\ cancelled_in id pre = false) /\
+    (tr (run_ops ops (init_with conn thr max script)) = post ++ ESkip id :: pre ->
+       cancelled_in id pre = true).
+Proof. exact cancel_and_skip. Qed.
+Print Assumptions C12_cancel_hits_pending_and_skip_hits_cancelled.
+
+Example C12_example_cancel :
+  let s := run_ops [OWrite [1;2]%N; OWrite [3]%N; OCancel 0; OReady; OReady]
+                   (init_with None 2 None [Block; Block; Accept 2; Block]) in
+  sent_of (tr s) = [1;2;3]%N /\ wfut s = [] /\ cancelled_in 0 (tr s) = true /\
+  In (ESkip 0) (tr s) /\ In (EResolve 1) (tr s) /\ ~ In (EResolve 0) (tr s).
+Proof. vm_compute. repeat split; auto 12. intros H; repeat (destruct H as [H|H]; [discriminate|]); exact H. Qed.
 
 (* after close no future stays pending *)
 Theorem C12_close_settles_every_future :
